@@ -37,6 +37,13 @@ def cases(prop, tier, seed):
                 out.append(dict(kind="C20", inner=name, dseed=int(rs.randint(1 << 30)), n=int(rs.randint(6, 11)), nl=int(rs.choice([0, 2, 3])),
                                 mode=("none", "idx", "rows")[t % 3], excl=bool(t % 2), mc=(0.5, 3, 0.3, 100)[t % 4], b=int(rs.randint(1, 4)),
                                 jobs=(1, 2, 3)[t % 3], sseed=int(rs.randint(0, 30)), t=t, cls=name, key=["C20", name, t]))
+    elif prop == "C05":
+        # the multi-annotator strategies (the single-annotator ones are swept by bounded/pool.py)
+        for name in ("RandomSampling", "US-margin", "ProbabilisticAL", "IntervalEstimationThreshold"):
+            for t in range(10 * reps):
+                out.append(dict(kind="C05", inner=name, dseed=int(rs.randint(1 << 30)), n=int(rs.randint(3, 9)), a=int(rs.randint(1, 5)),
+                                mode=t % 5, b=int(rs.randint(1, 6)), naps=int(rs.randint(1, 4)), sseed=int(rs.randint(0, 30)), t=t, cls=name,
+                                key=["C05", name, t]))
     elif prop == "C07":
         # modes 1-3 offer labeled samples as candidates as well: inner strategies must accept arbitrary index sets (sample-wise scoring)
         inner = ["RandomSampling", "US-least_confident", "US-margin", "US-entropy", "ProbabilisticAL", "QBC-KL", "QBC-vote_entropy", "GreedyBALD",
@@ -297,8 +304,10 @@ def run_c07(case, fail):
 
     def _alarm(*a_):
         raise _NoTermination()
+    import copy, pickle
+    frozen = copy.deepcopy((X, Y, cand, annot))          # C05 for the multi-annotator strategies: the caller's data survive the query
     old = signal.signal(signal.SIGALRM, _alarm)
-    signal.alarm(QUERY_TIMER_S)
+    signal.alarm(QUERY_TIMER_S if case["kind"] == "C07" else 3)
     try:
         if name == "IntervalEstimationThreshold":
             if mode == 4:
@@ -324,15 +333,26 @@ def run_c07(case, fail):
             q, U = qs.query(X, Y, candidates=cand, annotators=annot, batch_size=case["b"], n_annotators_per_sample=naps,
                             return_utilities=True, **z["kwargs"](NAN, (0, 1), case["sseed"]))
     except _NoTermination:
+        if case["kind"] == "C05":
+            return          # termination is C07's business (known finding there)
         fail("C07.query_does_not_terminate", f"no result within {QUERY_TIMER_S}s (mode {mode}, batch {case['b']}, n_annotators_per_sample {case.get('naps')}, "
                                              f"availability rows {[int(sum(1 for p in avail if p[0] == r)) for r in sorted({p[0] for p in avail})]})")
         return
     except Exception as e:
+        if case["kind"] == "C05":
+            return
         fail(f"C07.query_raised[{type(e).__name__}]", f"{str(e)[:120]} (mode {mode}, batch {case['b']}, n_annotators_per_sample {case.get('naps')})")
         return
     finally:
         signal.alarm(0)
         signal.signal(signal.SIGALRM, old)
+    if case["kind"] == "C05":
+        same = lambda u, v: (u is None and v is None) or (u is not None and v is not None and np.shape(u) == np.shape(v)
+                                                         and np.array_equal(np.asarray(u, dtype=float), np.asarray(v, dtype=float), equal_nan=True))
+        for nm, before, after in zip(("X", "y", "candidates", "annotators"), frozen, (X, Y, cand, annot)):
+            if not same(before, after):
+                fail("C05.multiannotator_query_changed_caller_data", f"`{nm}` was modified in place by the query (mode {mode})")
+        return
     q = np.asarray(q)
     if q.ndim != 2 or q.shape[1] != 2 or not np.issubdtype(q.dtype, np.integer):
         fail("C07.result_shape", f"shape {q.shape}, dtype {q.dtype}")
@@ -410,7 +430,7 @@ def run_case(prop, case):
     def fail(what, detail):
         fail._count = getattr(fail, "_count", 0) + 1
         fails.append({"sig": f"{case['cls']}:{what}", "detail": detail, "replay": {"module": "bounded.wrappers", "prop": prop, "case": case}})
-    {"C19": run_c19, "C20": run_c20, "C07": run_c07}[case["kind"]](case, fail)
+    {"C19": run_c19, "C20": run_c20, "C07": run_c07, "C05": run_c07}[case["kind"]](case, fail)
     return fails
 
 
